@@ -9,6 +9,7 @@ import (
 	"time"
 
 	"github.com/pion/turn/v5"
+	"github.com/pion/turn/v5/internal/client"
 )
 
 // Real clients inside the server world (W-e2e): turn.Client + its relayed socket against the
@@ -33,6 +34,9 @@ type RealClient struct {
 	Genuine bool
 	allocDone bool
 	allocEnd  int64
+	TAlloc    *client.TCPAllocation // RFC 6062 allocation (flavour e2e-tcprelay)
+	TConns    []*realTConn
+	tcpDone   bool // end of plan reached: the application holds nothing any more
 }
 
 type writeRec struct {
@@ -184,7 +188,9 @@ func (w *SrvWorld) execReal(rc *RealClient, op *Op) {
 		w.e2eMu.Unlock()
 		w.lib("close-relay", func() { _ = relay.Close() })
 	default:
-		Fatalf("real client op %q", op.Kind)
+		if !w.execRealTCP(rc, op) {
+			Fatalf("real client op %q", op.Kind)
+		}
 	}
 }
 
@@ -234,7 +240,9 @@ func (w *SrvWorld) checkE2E() {
 			continue
 		}
 		if rc.Relay == nil {
-			if rc.Err != nil {
+			if rc.Err != nil && len(w.K.StallIntervals()) == 0 && len(w.P.IOFaults) == 0 {
+				// (the TCP-relay plans also run with stalls and socket errors: an Allocate that
+				// times out behind a ten-minute stall has not failed by the library's doing)
 				w.K.Violate(&Violation{Property: "C14", Class: "allocate-failed", Detail: fmt.Sprintf("real client %s could not allocate: %v", rc.Spec.ID, rc.Err)})
 			}
 			continue
@@ -318,7 +326,7 @@ func (w *SrvWorld) checkReleased(now int64) {
 	w.e2eMu.Lock()
 	open, closedLong := 0, 0
 	for _, rc := range w.Real {
-		if rc.Relay == nil {
+		if rc.Relay == nil && rc.TAlloc == nil {
 			continue
 		}
 		if !rc.Closed {
